@@ -28,3 +28,10 @@ add("C03", "stateful property-based testing with generated flush schedules: orig
 add("C26", "property-based round trip over states reached by generated histories: decode(encode(W)) == W and snapshot equality after reload",
     "States reached by generated UserModel histories (restricted profiles plus the full operation language in en/en) are serialised with to_bytes and loaded with from_bytes; the decoded Workbook value must equal the original and the observable snapshot after evaluate must be the same (contents, formula texts, typed values, styles, structure).",
     "Trusted: snapshot reader, Workbook: PartialEq. Error message/origin strings are stripped before comparison. Non-English language/locale states and CSE array formulas are excluded from the campaigns while the corresponding findings are listed (replay files keep them exercised).")
+
+add("C27", "stateful property-based testing: structural invariant checker after every step of generated histories",
+    "Generated histories over the full UserModel operation language in every locale/language (valid arguments from small interacting domains, invalid arguments from C04's table, failed operations, undo, redo); after every step an invariant checker over Model::workbook asserts exactly the clauses of the property: valid and case-insensitively unique sheet names, unique sheet ids, cells inside the grid, existing style / shared-string / formula indices (and parsed-formula table in sync), sorted disjoint in-grid column descriptors with min<=max, unique row descriptors, every spill cell covered by an array-formula anchor, disjoint array ranges, defined-name scopes that exist.",
+    "Trusted: the invariant checker in harness/src/props/c27.rs. CSE array formulas are excluded from the campaign while their findings are listed (replays keep them exercised); a case ends when an operation panics.")
+add("C28", "stateful property-based testing: selection validity predicate after every step of sheet/navigation-heavy histories",
+    "Generated histories mixing sheet add/delete/hide/unhide/move/duplicate at any index relative to the selected sheet, hidden rows/columns including the grid edges, set_selected_*, arrow keys, page up/down, selection expansion, area selecting, navigate-to-edge, all recording operations, undo and redo; after every step the selected sheet index must be < sheet count, the view sheet must be the selected sheet, the selected cell must lie inside the normalised selected range and everything inside the grid.",
+    "Trusted: UserModel::get_selected_view / get_selected_sheet as observation points. Navigation arguments are valid cells. Single view (view id 0).")
